@@ -109,6 +109,18 @@ CHECKS = {
         "note": "Decided on the repaired GMP body (fix: afd25dc). Trusted: Coq kernel+VM; models of both primitive sets; system GMP 6.2.1 instead of 6.3.0 via the relaxed version gate in the vendored build script. No axioms.",
         "technique": "Coq proof (both back ends refine b^e mod m; zero-encoding difference absorbed by padding) + four-way correspondence (two real builds, two models)",
     },
+    "C11": {
+        "text": "Theorems (Coq, all sizes/opcodes, all cipher states satisfying the module invariant, all reader/writer scripts): each typed helper = the raw call on the wire layout be16 size ++ le16/le32 opcode (Wrath server: 4 or 5 bytes with the 0x80 marker), same bytes and same new state; every method of the combined objects = the half's method (incl. the re-implemented decrypt_client_header of vanilla HeaderCrypto and wrath ServerCrypto); read_exact on a script that delivers the bytes in ANY fragmentation with ANY interruptions returns the first n bytes and leaves the rest, hence read_and_decrypt_X = the array call (Wrath server header: the two-step protocol); if read_exact fails - characterised exactly: fewer than n bytes delivered, then end of file, a zero-length read or any error but Interrupted, i.e. every offset and kind at once - the wrapper returns that error and the decrypter is UNCHANGED; a Wrath fifth-byte failure leaves exactly the state after the 4-byte attempt and a later decrypt_large_server_header with the true byte completes the header and re-synchronises; write_encrypted_X returns exactly write_all's result (never swallowed) and - stated explicitly as not promised - the encrypter has advanced even when the write failed. Tied to the code by scripted Read/Write implementations replayed through implementation and model with a failure at every offset x every kind.",
+        "design_ref": "DESIGN.md §3 C11, §2.2 (scripts), Appendix A",
+        "note": "Trusted: Coq kernel+VM; models of the wrappers and of read_exact/write_all (documented std behaviour, shown to satisfy the std loop equations); SHA-1/HMAC modelled; harness. No axioms.",
+        "technique": "Coq proof (induction over reader/writer scripts, RC4/recurrence invariants) + model/implementation correspondence via vm_compute",
+    },
+    "C12": {
+        "text": "PARTIAL for thread schedules, proof for histories. Theorems (Coq, every finite list of operations {Enc chunk, Dec chunk, Split, Unsplit, Clone} on an object machine Combined c | Halves e d, for Vanilla, TBC, Wrath client and Wrath server objects, from any state satisfying the invariants): the run never panics, and per direction its outputs and final half are exactly those of that direction's calls alone on that direction's half; from fresh objects these are the C07/C08/C09 streams; clone operations are transparent and a history can be cut and continued on the copy; Vanilla unsplit e d = Ok <-> the two 40-byte keys are equal (Err otherwise, in particular for keys differing at any single position), never panics, is_pair_of decides the same, unsplit (split c) = Ok c. The 'different threads' clause is reduced to interleavings by Rust ownership (checked syntactically on every run) plus a two-thread test; it is not a theorem.",
+        "design_ref": "DESIGN.md §3 C12",
+        "note": "Trusted: Coq kernel+VM; models of split/unsplit and of the halves; Rust's ownership guarantees for the thread clause; harness. No axioms.",
+        "technique": "Coq proof (simulation of the object machine by its two halves, induction over the history) + model/implementation correspondence via vm_compute + syntactic ownership check",
+    },
 }
 
 DONE = set(CHECKS)
